@@ -17,7 +17,10 @@ impl Backend {
     pub fn del(&mut self, offset: u64, length: u64) -> (r: Result<(), RandomAccessError>)
         requires !old(self).failed@
         ensures r is Ok ==> !final(self).failed@ && final(self).log@ == old(self).log@.push(BOp::Del { off: offset, len: length }),
-            r is Err ==> final(self).failed@ && final(self).log@ == old(self).log@
+            // a delete that starts beyond the end of the store is refused with OutOfBounds: an answer, not a fault - the store is
+            // unchanged; it is journalled as the no-op it is (applying a delete beyond the end changes nothing)
+            r is Err && r->Err_0 is OutOfBounds ==> !final(self).failed@ && final(self).log@ == old(self).log@.push(BOp::Del { off: offset, len: length }),
+            r is Err && !(r->Err_0 is OutOfBounds) ==> final(self).failed@ && final(self).log@ == old(self).log@
     { unimplemented!() }
     #[verifier::external_body]
     pub fn truncate(&mut self, length: u64) -> (r: Result<(), RandomAccessError>)
